@@ -134,6 +134,16 @@ CLAIMED["C01"] = dict(
     note=FS_NOTE,
 )
 
+CLAIMED["C16"] = dict(
+    engine="symx",
+    technique="symbolic execution of RunT/run/doCmdCmp/applyScriptUpdates with txtar.NeedsQuote/Quote/Format/Parse from go/ssa over a file-system model; golden and actual contents decided by z3; second run on the rewritten script",
+    text=("With golden contents, the actual text, the comparison form (cmp / ! cmp / cmpenv; archive entry or outside file) and UpdateScripts as solver variables: the run passes iff every mismatch was updatable; "
+          "the bytes written to the script path parse to the same script text, the same entry names in order, byte-identical untouched entries and the updated entry holding the actual text (quoted exactly when it contains a marker line); "
+          "nothing is written for outside files, cmpenv and negated cmp; re-running the rewritten script without UpdateScripts passes and writes nothing when the content is representable."),
+    design_ref="DESIGN.md §4 C16",
+    note=FS_NOTE,
+)
+
 NOT_APPLICABLE = {
     "C20": "goproxytest's behaviour lives in net/http, archive/zip+flate, encoding/json (reflection) and directory walks; none is encodable by the SSA symbolic executor, and with them stubbed nothing solver-relevant remains (its once-per-key ingredient is par.Cache = C10)",
 }
